@@ -535,6 +535,8 @@ class TreeGen:
                                                "k": st.fixed_dictionaries({"left": opt, "right": opt})}))
         opts.append(st.fixed_dictionaries({"c": st.just("MixedRev"), "o": self.origin(),
                                            "k": st.fixed_dictionaries({"items": opt, "child": items})}))
+        opts.append(st.fixed_dictionaries({"c": st.just("AbsImpl"), "o": self.origin(), "p": self.props("AbsImpl"),
+                                           "k": st.fixed_dictionaries({"kid": opt})}))
         for cn in ("TagB", "Both", "Both"):  # multiple inheritance: fields from two bases
             opts.append(st.fixed_dictionaries({"c": st.just(cn), "o": self.origin(), "p": self.props(cn),
                                                "k": st.fixed_dictionaries({"kid": opt})}))
